@@ -88,6 +88,18 @@ Theorem C13_walker_entered_iff_some_rule :
 Proof. exact walk_enabled_iff. Qed.
 Print Assumptions C13_walker_entered_iff_some_rule.
 
+(* public_api_delegates: Engine.Load / LoadFromIR / LoadedGroups / Run are the engine's methods (pure delegation, no field besides
+   the engine and the build context): every theorem above about the engine is a theorem about what the API's caller observes *)
+Theorem C13_public_api_delegates : (
+  gen_fields_Engine = ["impl *engine"; "BuildContext *build.Context"] /\
+  gen_api_NewEngine = ["return &Engine{impl: newEngine()}"] /\
+  gen_api_Load = ["return e.impl.Load(ctx, e.BuildContext, filename, r)"] /\
+  gen_api_LoadFromIR = ["return e.impl.LoadFromIR(ctx, e.BuildContext, filename, f)"] /\
+  gen_api_LoadedGroups = ["return e.impl.LoadedGroups()"] /\
+  gen_api_Run = ["return e.impl.Run(ctx, e.BuildContext, f)"])%string.
+Proof. exact public_api_delegates. Qed.
+Print Assumptions C13_public_api_delegates.
+
 (* ---- one file: GroupFilter, bundles, functions *)
 Theorem C13_filtered_group_frees_name :
   forall (NB : nat) (mangle : N -> N -> N), (forall p a b, mangle p a = mangle p b -> a = b) ->
